@@ -17,7 +17,7 @@ EXPLANATION = (
     "structural part decided here.")
 # every anchor of these rules lives in the h3 crate: thorough tier repeats them on the feature-less build
 EXTRA_CONFIGS = ["h3-plain"]
-RULES = "C07-a stream-scoped faults are not connection-fatal (A3); C07-b stream errors never become clean EOF (A3); C07-c nothing but the shared state is shared (A12); shared: frame reader memo under C07-b"
+RULES = "C07-a stream-scoped faults are not connection-fatal (A3); C07-b stream errors never become clean EOF (A3); C07-c nothing but the shared state is shared (A12); shared: frame reader memo under C07-b; shared through a proxy: C12-a under C07-a"
 
 CEC = "h3::error::connection_error_creators::"
 FATAL = ("handle_connection_error_on_stream", "handle_connection_error", "set_conn_error_and_wake", "set_conn_error")
@@ -178,3 +178,7 @@ def run(ctx):
     ctx.check(all("tracing" in k or "CALLSITE" in k or "__" in k for k in st), "C07-c", "statics", "no mutable statics in the library crates",
               "static items: %s" % st, str(st)[:200])
     ctx.assume("the QUIC transport keeps streams independent")
+    # a malformed message must be refused, never crash the endpoint: the field gate (C12-a, incl. the emptiness test before name[0])
+    if not getattr(ctx, "nested", False):
+        from rules import C12 as _c12
+        _c12.run(shared.Proxy(ctx, ("C12-a",), "C07-a"))
